@@ -468,6 +468,7 @@ pub fn run(ctx: &mut Ctx) {
     } else {
         ctx.inconclusive("CLI executable not available for the CLI sample");
     }
+    crate::fuzz::run_for(ctx);
     for m in ["integer-out-of-range", "control-integer-in-range", "bytesN-wrong-length", "fixed-array-wrong-size", "missing-member", "undeclared-member", "undefined-struct-type", "wrong-json-kind", "malformed-bytes-or-address"] {
         ctx.floor_abs(m, (n / 40) as u64);
     }
@@ -497,4 +498,8 @@ pub fn set_cli(cli: Option<PathBuf>, root: PathBuf) {
         let _ = CLI.set(c);
     }
     let _ = ROOT.set(root);
+}
+
+pub fn gen_case_pub(tape: Vec<u8>) -> Case {
+    gen_case(tape)
 }
